@@ -1139,7 +1139,7 @@ def wrapper_facts(tree, src, deco_name: str, recv: str):
              f"{recv}.last_op": ("last_op", "opk"),
              "eq:opk": ("opk_eqb", "fn"), "lt:opk": ("opk_ltb", "fn"), "le:opk": ("opk_leb", "fn"),
              "gt:opk": ("opk_gtb", "fn"), "ge:opk": ("opk_geb", "fn")},
-        calls={})
+        calls={}, helpers=py2v.module_helpers(tree))
 
     def is_convert(call):
         return (isinstance(call, ast.Call) and not call.args and not call.keywords
